@@ -704,8 +704,6 @@ pub fn exp2(d: P32E2) -> P32E2 {
         ONE,
     ]);
 
-    u = kernel::ldexp2(u, q.into());
-
     if d < P32E2::new(-0x_6cb0_0000)
     /* -150.*/
     {
@@ -715,7 +713,7 @@ pub fn exp2(d: P32E2) -> P32E2 {
     {
         NAR
     } else {
-        u
+        kernel::ldexp2(u, q.into())
     }
 }
 
@@ -754,8 +752,6 @@ pub fn exp10(d: P32E2) -> P32E2 {
         ONE,
     ]);
 
-    u = kernel::ldexp2(u, q.into());
-
     if d < P32E2::new(-0x_6640_0000)
     /* -50. */
     {
@@ -765,7 +761,7 @@ pub fn exp10(d: P32E2) -> P32E2 {
     {
         NAR
     } else {
-        u
+        kernel::ldexp2(u, q.into())
     }
 }
 /*
